@@ -252,8 +252,12 @@ func check(id, tier string) int {
 		die(2, "cannot load violating scenario: %v", err)
 	}
 	min, replays, verified := shrink(violBuild, s, violation.Violation.Class, dir, 150*time.Second)
-	os.MkdirAll("/verif/replays", 0o755)
-	rp := fmt.Sprintf("/verif/replays/%s-%d.json", id, violation.ViolSeed)
+	rdir := "/verif/replays"
+	if d := os.Getenv("PBSIM_REPLAY_DIR"); d != "" { // self-tests keep their replays out of /verif/replays
+		rdir = d
+	}
+	os.MkdirAll(rdir, 0o755)
+	rp := fmt.Sprintf("%s/%s-%d.json", rdir, id, violation.ViolSeed)
 	min.Save(rp)
 	agg.ShrinkReplays = replays
 	agg.write(time.Since(start).Seconds(), 1)
@@ -510,12 +514,17 @@ func buildFor(s *scn.Scn, dir string) (built, int) {
 }
 
 func runReplay(b built, file, dir string, trace bool, idx int) (int, *scn.Outcome, string) {
-	outf := filepath.Join(dir, fmt.Sprintf("outcome-%d.json", idx))
-	os.Remove(outf)
-	args := []string{"-replay", file, "-out", outf}
+	args := []string{"-replay", file}
 	if trace {
 		args = append(args, "-trace")
 	}
+	return runReplayArgs(b, dir, idx, args...)
+}
+
+func runReplayArgs(b built, dir string, idx int, args ...string) (int, *scn.Outcome, string) {
+	outf := filepath.Join(dir, fmt.Sprintf("outcome-%d.json", idx))
+	os.Remove(outf)
+	args = append(args, "-out", outf)
 	cmd := exec.Command(b.bin, args...)
 	cmd.Env = workerEnv(dir, 1000+idx)
 	done := make(chan struct{})
@@ -575,20 +584,44 @@ func replay(file string, trace bool) int {
 func shrink(b built, s *scn.Scn, class string, dir string, budget time.Duration) (*scn.Scn, int, bool) {
 	deadline := time.Now().Add(budget)
 	replays := 0
-	try := func(c *scn.Scn, idx int) (bool, *scn.Outcome) {
+	concurrent := false
+	for _, p := range s.Phases {
+		if len(p.Clients) > 1 {
+			concurrent = true
+		}
+	}
+	// try executes candidate c as stored; if that does not fail with the
+	// wanted class and the scenario is concurrent, it searches fresh schedules
+	// for c. It returns the failing scenario (with its schedule), or nil.
+	try := func(c *scn.Scn, idx int, search bool) *scn.Scn {
 		f := filepath.Join(dir, fmt.Sprintf("cand-%d.json", idx))
 		c.Save(f)
 		code, o, _ := runReplay(b, f, dir, false, idx)
-		return code == 1 && o != nil && o.Violation != nil && o.Violation.Class == class, o
+		if code == 1 && o != nil && o.Violation != nil && o.Violation.Class == class {
+			c.Expect = o.Violation
+			return c
+		}
+		if !search || !concurrent {
+			return nil
+		}
+		c.Expect = &scn.Violation{Class: class}
+		c.Save(f)
+		sf := filepath.Join(dir, fmt.Sprintf("found-%d.json", idx))
+		os.Remove(sf)
+		code, _, _ = runReplayArgs(b, dir, idx, "-replay", f, "-search", "48", "-save", sf)
+		if code == 1 {
+			if fs, err := scn.Load(sf); err == nil && fs.Expect != nil && fs.Expect.Class == class {
+				return fs
+			}
+		}
+		return nil
 	}
 	// first: does the original reproduce at all?
-	ok, o := try(s, 0)
+	cur := try(s, 0, false)
 	replays++
-	if !ok {
+	if cur == nil {
 		return s, replays, false
 	}
-	cur := s
-	cur.Expect = o.Violation
 	par := runtime.NumCPU()
 	for time.Now().Before(deadline) {
 		cands := cur.Candidates()
@@ -601,26 +634,20 @@ func shrink(b built, s *scn.Scn, class string, dir string, budget time.Duration)
 			if end > len(cands) {
 				end = len(cands)
 			}
-			type res struct {
-				ok bool
-				o  *scn.Outcome
-			}
-			rs := make([]res, end-base)
+			rs := make([]*scn.Scn, end-base)
 			var wg sync.WaitGroup
 			for i := base; i < end; i++ {
 				wg.Add(1)
 				go func(i int) {
 					defer wg.Done()
-					ok, o := try(cands[i], 1+i-base)
-					rs[i-base] = res{ok, o}
+					rs[i-base] = try(cands[i], 1+i-base, true)
 				}(i)
 			}
 			wg.Wait()
 			replays += end - base
 			for i := range rs {
-				if rs[i].ok && cands[base+i].Size() < cur.Size() {
-					cur = cands[base+i]
-					cur.Expect = rs[i].o.Violation
+				if rs[i] != nil && rs[i].Size() < cur.Size() {
+					cur = rs[i]
 					improved = true
 					break
 				}
@@ -632,9 +659,8 @@ func shrink(b built, s *scn.Scn, class string, dir string, budget time.Duration)
 	}
 	// verify twice in fresh processes
 	for i := 0; i < 2; i++ {
-		ok, _ := try(cur, 0)
 		replays++
-		if !ok {
+		if try(cur, 0, false) == nil {
 			return cur, replays, false
 		}
 	}
